@@ -11,6 +11,9 @@ corr (b) : instrumented codegen: the real `PythonPrinter` is wrapped while `Temp
            classified by emitting call site (the list of such sites is pinned: KNOWN_UNMARKED).
 corr (c) : `RichTraceback._init`, `.traceback`, `.lineno` decision logic (`prn tb`, `prn pick`) and the
            warnings helpers (`prn warn`) vs the real functions.
+corr (d) : the Lean emission skeleton of codegen's visit*/write_* methods (Printer/Codegen.lean, `prn emitall`):
+           the item list of a real compilation is rebuilt from the visited nodes and `emitAll items` is compared
+           with the recorded event sequence, event by event.
 oracle   : (no Lean) generated template sets with ONE raising expression / statement planted at every
            candidate position, one at a time, x four construction paths; RichTraceback records,
            text_error_template, html_error_template, format_exceptions=True; warning-triggering literals
@@ -28,6 +31,7 @@ import tempfile
 import traceback
 import types
 import warnings
+import zlib
 
 from harness.common import enc, dec
 
@@ -1560,7 +1564,7 @@ def oracle_warn(ctx, env):
             stage = LITERALS[case["literal"]][2] if case["literal"] else "exec"
             for path in PATHS:
                 for action in ("always", "once", "error"):
-                    if ctx.quick and (hash((case["name"], path, action, rd)) % 2) and case["name"].startswith("attr:"):
+                    if ctx.quick and (zlib.crc32(repr((case["name"], path, action, rd)).encode()) % 2) and case["name"].startswith("attr:"):
                         continue
                     try:
                         shown, raised, names = run_warning_case(case, path, action, env)
@@ -2103,6 +2107,24 @@ def oracle_collision(ctx, env):
         del ta, tb, la, lb
 
 
+def oracle_inside_template(ctx):
+    """RichTraceback built in an `except` clause inside a template: the template frame is the FIRST record"""
+    from mako.template import Template
+    st = ctx.stream("oracle.richtraceback_inside_template", "oracle")
+    for pad in (0, 2, 5):
+        st["cases"] += 1
+        src = ("pad\n" * pad + "<%\n    from mako.exceptions import RichTraceback\n    try:\n        x = 1/0\n"
+               "    except Exception:\n        tb = RichTraceback()\n%>\n"
+               "${tb.lineno}|${tb.source == self.template.source}|${[(r[4] is not None, r[5]) for r in tb.records]}")
+        out = Template(src).render_unicode().strip()
+        want_line = pad + 4
+        want = "%d|True|[(True, %d)]" % (want_line, want_line)
+        if out != want:
+            ctx.violation("richtraceback-lineno:first-record-skipped", {"input": src, "expected_line": want_line},
+                          {"rendered": out, "expected": want}, "oracle.richtraceback_inside_template")
+            break
+
+
 # --------------------------------------------------------------------------------------------------
 
 def run(ctx):
@@ -2124,7 +2146,10 @@ def run(ctx):
                 try:
                     oracle_warn(ctx, env)
                 finally:
-                    oracle_collision(ctx, env)
+                    try:
+                        oracle_collision(ctx, env)
+                    finally:
+                        oracle_inside_template(ctx)
     finally:
         shutil.rmtree(root, ignore_errors=True)
         # modules imported from the scratch module directories
@@ -2181,6 +2206,12 @@ def replay(ctx, data):
                 return (raised is not None and type(raised).__module__.startswith("mako")
                         and getattr(raised, "lineno", None) == line and not shown)
             return raised is None and len(shown) == 1 and shown[0][1] == line
+        if "expected_line" in case and "tb = RichTraceback()" in case["input"]:
+            c2 = type(ctx)(ctx.pid, "quick", 0)
+            oracle_inside_template(c2)
+            for v in c2.violations:
+                print("  ", v["detail"])
+            return not c2.violations
         if "other_template_same_uri" in case:
             c2 = type(ctx)(ctx.pid, "quick", 0)
             oracle_collision(c2, env)
